@@ -1,6 +1,6 @@
 (* C08 — Keys survive serialisation unchanged; secret keys derive the matching public key; wrong lengths,
    invalid points and out-of-range scalars are rejected.  Models: Keys.v (each backend's HasKey impls). *)
-From PV Require Import Bytes Result Oracle Keys KeysProofs.
+From PV Require Import Bytes Result Oracle Keys KeysProofs ToyOracle.
 Local Open Scope list_scope.
 
 (* local keys: exactly the 32-byte strings, unchanged *)
@@ -91,3 +91,12 @@ Print Assumptions C08_v3_public_of_secret.
 Print Assumptions C08_v3_backends_agree_on_public_keys.
 Print Assumptions C08_v3_backends_agree_on_secret_keys.
 Print Assumptions C08_v3_awslc_scalar_encoding.
+
+(* non-vacuity: the premises of the theorems above ([laws O] and the four point-encoder facts) have a model *)
+Theorem C08_premises_satisfiable : exists O, laws O /\
+  (forall sd, ed_pk_weak (ed_pk O sd) = false) /\
+  (forall sd, na_point_valid (ed_pk O sd) = true) /\
+  (forall bs pk, p384_parse O bs = Some pk -> compressed_tag pk = true) /\
+  (forall sk pk, p384_pk O sk = Some pk -> compressed_tag pk = true).
+Proof. exists toy. split; [exact toy_laws | exact toy_key_premises]. Qed.
+Print Assumptions C08_premises_satisfiable.
